@@ -13,7 +13,9 @@ import "strings"
 //	       C08 R2/R4 (values are not shared storage)
 //	C03 (labels chain, exact resume points) <- C04 R2/R3/R6 (the cell moves only at an accepted commit and at a rotation; no accepted event skips the dispatch)
 //	C08 (delivered data is private)         <- C02 R4 (the buffer handed to the handler is replaced, not re-sliced)
-//	C10-C14 (value text of a column type)   <- C15 R5 for the column types of that property (per-type metadata layout)
+//	C03, C04 (labels are resume points; the next attempt starts at the kept position) <- C07 R3 (the request carries the stored file and offset)
+//	C10-C14 (value text of a column type)   <- C15 R5 and C09 R2 for the column types of that property (per-type metadata
+//	                                           layout; the length rule agrees with the value decoder)
 //	C12 (timestamp text)                    <- C08 R2 (a returned value aliases only the event buffer or fresh memory)
 //	C13 (NULL / empty / absent)             <- C09 R3 of the streamer's image decoders (ordinal / NULL index / offset bookkeeping)
 var propIncludes = map[string][]inc{
@@ -22,19 +24,48 @@ var propIncludes = map[string][]inc{
 		{"C04", map[string]func(string) bool{"C04-R6": nil}},
 		{"C08", map[string]func(string) bool{"C08-R2": nil, "C08-R4": nil}},
 	},
-	"C03": {{"C04", map[string]func(string) bool{"C04-R2": nil, "C04-R3": nil, "C04-R6": nil}}},
+	"C03": {
+		{"C04", map[string]func(string) bool{"C04-R2": nil, "C04-R3": nil, "C04-R6": nil}},
+		{"C07", map[string]func(string) bool{"C07-R3": resumeArgs}},
+	},
+	"C04": {{"C07", map[string]func(string) bool{"C07-R3": resumeArgs}}},
 	"C08": {{"C02", map[string]func(string) bool{"C02-R4": nil}}},
-	"C10": {{"C15", map[string]func(string) bool{"C15-R5": metaTypes("TypeTiny", "TypeShort", "TypeInt24", "TypeLong", "TypeLongLong", "TypeYear", "TypeFloat", "TypeDouble", "TypeBit", "TypeEnum", "TypeSet", "TypeString")}}},
-	"C11": {{"C15", map[string]func(string) bool{"C15-R5": metaTypes("TypeDecimal", "TypeNewDecimal")}}},
+	"C10": {{"C15", map[string]func(string) bool{"C15-R5": metaTypes(typesC10...)}}, {"C09", map[string]func(string) bool{"C09-R2": cellTypes(typesC10...)}}},
+	"C11": {{"C15", map[string]func(string) bool{"C15-R5": metaTypes(typesC11...)}}, {"C09", map[string]func(string) bool{"C09-R2": cellTypes(typesC11...)}}},
 	"C12": {
-		{"C15", map[string]func(string) bool{"C15-R5": metaTypes("TypeDate", "TypeNewDate", "TypeTime", "TypeDateTime", "TypeTimestamp", "TypeTimestamp2", "TypeDateTime2", "TypeTime2")}},
+		{"C15", map[string]func(string) bool{"C15-R5": metaTypes(typesC12...)}},
+		{"C09", map[string]func(string) bool{"C09-R2": cellTypes(typesC12...)}},
 		{"C08", map[string]func(string) bool{"C08-R2": nil}},
 	},
 	"C13": {
-		{"C15", map[string]func(string) bool{"C15-R5": metaTypes("TypeVarchar", "TypeVarString", "TypeString", "TypeTinyBlob", "TypeMediumBlob", "TypeLongBlob", "TypeBlob", "TypeGeometry")}},
-		{"C09", map[string]func(string) bool{"C09-R3": func(key string) bool { return !strings.HasPrefix(key, "skeleton@Rows[") }}},
+		{"C15", map[string]func(string) bool{"C15-R5": metaTypes(typesC13...)}},
+		{"C09", map[string]func(string) bool{"C09-R2": cellTypes(typesC13...), "C09-R3": func(key string) bool { return !strings.HasPrefix(key, "skeleton@Rows[") }}},
 	},
-	"C14": {{"C15", map[string]func(string) bool{"C15-R5": metaTypes("TypeJSON")}}},
+	"C14": {{"C15", map[string]func(string) bool{"C15-R5": metaTypes("TypeJSON")}}, {"C09", map[string]func(string) bool{"C09-R2": cellTypes("TypeJSON")}}},
+}
+
+var (
+	typesC10 = []string{"TypeTiny", "TypeShort", "TypeInt24", "TypeLong", "TypeLongLong", "TypeYear", "TypeFloat", "TypeDouble", "TypeBit", "TypeEnum", "TypeSet", "TypeString"}
+	typesC11 = []string{"TypeDecimal", "TypeNewDecimal"}
+	typesC12 = []string{"TypeDate", "TypeNewDate", "TypeTime", "TypeDateTime", "TypeTimestamp", "TypeTimestamp2", "TypeDateTime2", "TypeTime2"}
+	typesC13 = []string{"TypeVarchar", "TypeVarString", "TypeString", "TypeTinyBlob", "TypeMediumBlob", "TypeLongBlob", "TypeBlob", "TypeGeometry"}
+)
+
+// resumeArgs: the instances of C07-R3 that say the dump request carries the stored position (file and offset).
+func resumeArgs(key string) bool {
+	return key == "dump-arg@offset" || key == "dump-arg@filename" || strings.HasPrefix(key, "dump-arg@Stream[position]")
+}
+
+// cellTypes selects the instances of C09-R2 (length rule = value decoder) of the given column types.
+func cellTypes(names ...string) func(string) bool {
+	return func(key string) bool {
+		for _, n := range names {
+			if strings.HasPrefix(key, "agree@cell["+n+"]") || strings.HasPrefix(key, "agree@cell["+n+",") {
+				return true
+			}
+		}
+		return false
+	}
 }
 
 type inc struct {
